@@ -38,6 +38,10 @@ NON_RETRYABLE = ("PERMANENT", "AUTH", "PERMISSION")
 # ---------------------------------------------------------------------------
 # objects the operation produces
 # ---------------------------------------------------------------------------
+STATUS_OF = {"TRANSIENT": 408, "SERVER_ERROR": 500, "RATE_LIMIT": 429, "CONCURRENCY": 409, "AUTH": 401,
+             "PERMISSION": 403, "PERMANENT": 400, "UNKNOWN": None}
+
+
 class SimError(Exception):
     """Exception raised by the scripted operation (classified by `.cls`)."""
 
@@ -46,6 +50,8 @@ class SimError(Exception):
         self.label = label
         self.cls = cls
         self.retry_after = retry_after
+        # lets redress.default_classifier (used by no-retry policies) see the same class
+        self.status = STATUS_OF.get(cls)
 
 
 class Val:
@@ -344,7 +350,7 @@ class Env:
     def _op_post(self, cs: CallState, k: int, step: dict):
         kind = step["kind"]
         lab = f"c{cs.cid}a{k}"
-        if kind == "res" and not self.res_enabled:
+        if kind == "res" and not getattr(cs, "res_enabled", self.res_enabled):
             kind = "ok"  # without a result classifier every returned object is a success
         if kind == "ok":
             v = Val("V" + lab)
